@@ -40,6 +40,7 @@ table = [
  ("status compares every tracked file with its staged blob", "C13", "bounded[statusCmd_RunE]: an edit to a tracked file that an ignore pattern matches was not reported as modified (the comparison ran over the ignore-filtered walk)"),
  ("status reports a tracked path as deleted when a directory on the way", "C13", "bounded[statusCmd_RunE]: a tracked d/x was not reported as deleted after d had become a regular file (stat fails with ENOTDIR, which is not IsNotExist)"),
  ("paths are converted with filepath.ToSlash", "C04", "bounded[addCmd_RunE]: a file whose name contains a backslash was staged under the name with '/' instead (strings.ReplaceAll on every platform)"),
+ ("commit does not take an unreadable branch file for a missing one", "C16", "cmd.commit#iofail: when the read of the current branch's file failed (EIO, EACCES ...) commit() went on as for the first commit: it wrote a commit without parent, moved the branch to it and reported success (shown on the binary with strace fault injection: rc=0, tip without parent line, log lists one commit)"),
  ("restore checks every argument", "C18", "bounded[restoreCmd_RunE]: refused only after earlier arguments had been restored"),
 ]
 log = subprocess.run(["git","-C","/repo","log","--format=%h %s"],capture_output=True,text=True).stdout.splitlines()
